@@ -193,6 +193,36 @@ func init() {
 				rec(0)
 				c09x = c09extra{}
 			}
+			// two children failing at the same moment (three children, so that a live one stands behind a dead one)
+			if cc.nchild == 3 && typ != SupervisorTypeSimpleOneForOne {
+				for intensity := 1; intensity <= 3; intensity++ {
+					c09x = c09extra{double: true}
+					gaps := []int64{0, 500, 1001}
+					maxLen := intensity + 1
+					seq := make([]int, maxLen)
+					var rec func(d int)
+					rec = func(d int) {
+						if d > 0 {
+							gaveUp := c09RunSupervisor(r, cfg, intensity, 1, 0, gaps, seq[:d])
+							distinct[fmt.Sprint("double", intensity, seq[:d], gaveUp)] = true
+							r.Executions++
+							r.Transitions += d
+							if gaveUp {
+								return
+							}
+						}
+						if d == maxLen {
+							return
+						}
+						for g := range gaps {
+							seq[d] = g
+							rec(d + 1)
+						}
+					}
+					rec(0)
+					c09x = c09extra{}
+				}
+			}
 			// simple-one-for-one: children of a disabled spec that are being stopped are not failures
 			if typ == SupervisorTypeSimpleOneForOne {
 				for _, k := range []int{1, 2, 3} {
@@ -253,6 +283,7 @@ type c09extra struct {
 	raw                     bool
 	rawIntensity, rawPeriod int
 	preDisable              int
+	double                  bool // at every step the last child and the first child fail at the same moment (both exits are queued before the supervisor runs)
 }
 
 var c09x c09extra
@@ -321,7 +352,7 @@ func c09RunSupervisor(r *harn.Result, cfg c08cfg, intensity, period, victim int,
 			}
 		}
 		base := ex.Now
-		var times []int64
+		var times, coalesced []int64
 		t := int64(0)
 		desc := func() string {
 			return fmt.Sprintf("%s, intensity %d, period %ds, child %s crashing at %v ms", cfg.name(), intensity, period, specNames[victim], times)
@@ -334,6 +365,13 @@ func c09RunSupervisor(r *harn.Result, cfg c08cfg, intensity, period, victim int,
 			if len(pids) == 0 {
 				r.Fail("child-not-restarted", "%s: the child is not running before failure #%d", desc(), k+1)
 				return ""
+			}
+			if x.double {
+				// the last child's exit is queued first, the victim's right behind it
+				if lp := st.f.liveOf(specNames[cfg.nchild-1]); len(lp) == 1 {
+					st.f.die(lp[0], errCrash)
+					coalesced = append(coalesced, t)
+				}
 			}
 			st.f.die(pids[0], errCrash)
 			st.run()
@@ -352,6 +390,14 @@ func c09RunSupervisor(r *harn.Result, cfg c08cfg, intensity, period, victim int,
 				return ""
 			}
 			strict, lenient := refExceeded(times, period, intensity)
+			if x.double {
+				// all/rest-for-one may serve two simultaneous failures with ONE restart (the second exit arrives while
+				// the children are being stopped anyway): it must give up if even one restart per step exceeds the
+				// limit, and may give up only if one restart per failure does
+				all := append(append([]int64{}, times...), coalesced...)
+				sort.Slice(all, func(i, j int) bool { return all[i] < all[j] })
+				_, lenient = refExceeded(all, period, intensity)
+			}
 			ended := st.ended != nil
 			switch {
 			case ended && !lenient:
